@@ -47,6 +47,7 @@ class ExecGen:
         self.files = {}
         self.used_hosts = set()
         self.budget = 0
+        self.order = []        # call order: a function may only call functions after it
 
     # -- leaves ------------------------------------------------------------------------------
     def tick(self):
@@ -110,12 +111,22 @@ class ExecGen:
             return var(r.choice(scope['gens']))
         return self.cond_expr(scope)
 
-    def fn_ref(self):
+    def callable_names(self, scope):
+        """Script functions that code in `scope` may call. Inside a function only functions later in
+        the order are callable, so that every recursion in a workload is the guarded one: host-stack
+        exhaustion must never decide an outcome."""
+        if 'fn_index' not in scope:
+            return self.funcs or ['fnA']
+        return self.order[scope['fn_index'] + 1:]
+
+    def fn_ref(self, scope):
         """An expression whose value is (usually) a script function."""
         r = self.rng
-        names = self.funcs or ['fnA']
+        names = self.callable_names(scope)
+        if not names:
+            return var('null')
         c = r.random()
-        if c < 0.7:
+        if c < 0.7 or 'fn_index' in scope:
             return var(r.choice(names))
         if c < 0.85:
             return call('systemPartial', var(r.choice(names)), num(r.randint(0, 5)))
@@ -127,8 +138,10 @@ class ExecGen:
     def call_expr(self, scope):
         """A call that may run script functions directly or as a callback."""
         r = self.rng
-        names = self.funcs or ['fnA']
-        choices = ['direct', 'direct', 'direct', 'var']
+        names = self.callable_names(scope)
+        if not names or scope.get('no_calls'):
+            return call('hostTick', s('leaf'))
+        choices = ['direct', 'direct', 'direct'] + (['var'] if 'fn_index' not in scope else [])
         if self.k['callbacks']:
             choices += ['hostCall', 'indexOf', 'lastIndexOf', 'partial']
             if self.k['data']:
@@ -140,12 +153,12 @@ class ExecGen:
             return call(r.choice(scope['gens']), *self.call_args(scope))
         if kind == 'hostCall':
             self.used_hosts.add('hostCall')
-            return call('hostCall', self.fn_ref(), *self.call_args(scope))
+            return call('hostCall', self.fn_ref(scope), *self.call_args(scope))
         if kind in ('indexOf', 'lastIndexOf'):
             arr = call('arrayNew', *[num(r.randint(0, 3)) for _ in range(r.randint(0, 3))]) \
                 if r.random() < 0.7 else var(r.choice(scope['gens']))
             fn = 'arrayIndexOf' if kind == 'indexOf' else 'arrayLastIndexOf'
-            return call(fn, arr, self.fn_ref())
+            return call(fn, arr, self.fn_ref(scope))
         if kind == 'partial':
             return call('systemPartial', var(r.choice(names)), *self.call_args(scope)[:2] or [num(1)])
         # data expressions: rows are objects built by objectNew is outside the RefVM library; rows come from globals
@@ -187,7 +200,7 @@ class ExecGen:
                 if c2 < 0.4:
                     e = call('arrayNew', *[self.num_expr(scope, 1) for _ in range(r.randint(0, 3))])
                 elif c2 < 0.8:
-                    e = self.fn_ref()
+                    e = self.fn_ref(scope)
                 else:
                     e = self.any_expr(scope)
                 out.append(ir.st_expr(e, name))
@@ -238,9 +251,12 @@ class ExecGen:
         nargs = r.randint(0, 3)
         args = [f'a{ix}' for ix in range(nargs)]
         last = nargs > 0 and r.random() < 0.2
+        if name not in self.order:
+            self.order.append(name)
         scope = {'nums': ['m0', 'm1'] + ([a for a in args[:2]] if args and not last else []) + ['n0'],
-                 'gens': ['h0'] + (args[-1:] if args else []) + ['g0'],
-                 'labels': ['R0', 'R1', 'G0'], 'includes': scope_g.get('includes')}
+                 'gens': ['h0'] + (args[-1:] if args else []) + ['h1'],
+                 'labels': ['R0', 'R1', 'G0'], 'fn_index': self.order.index(name),
+                 'includes': scope_g.get('includes') if self.k.get('func_includes') else None}
         body = [self.tick()]
         if r.random() < 0.45:
             # guarded recursion: depth bounded by the answers of a fresh site
@@ -292,14 +308,17 @@ class ExecGen:
                 location = R.ref_resolve(main_location, ref) if main_location is not None else ref
             norm = R.normalise(location)
             if norm in self.files:
-                refs.append(ref)
+                if self.files[norm] is not None:     # completed files only: the include graph stays a DAG
+                    refs.append(ref)
                 continue
             self.files[norm] = None   # reserve
             sub_scope = dict(scope_g)
+            if self.k.get('func_includes'):
+                sub_scope['no_calls'] = True       # files reachable from function bodies must not call back
             sub_scope['includes'] = self.make_vfs(location, depth + 1, scope_g) \
                 if depth + 1 < self.k['include_depth'] and r.random() < 0.6 else []
             stmts = []
-            if r.random() < 0.3:
+            if r.random() < 0.3 and not self.k.get('func_includes'):
                 fn_name = f'fnI{ix}'
                 self.funcs.append(fn_name)
                 stmts.append(self.function(fn_name, sub_scope))
@@ -326,6 +345,7 @@ class ExecGen:
         plan = {'debug': r.random() < 0.3, 'has_log': r.random() < 0.9, 'has_fetch': True}
         scope = {'nums': ['n0', 'n1', 'n2'], 'gens': ['g0', 'g1'], 'labels': ['G0', 'G1', 'G2'], 'includes': []}
         self.funcs = [f'fn{c}' for c in 'ABC'[:r.randint(1, k['n_funcs'])]] if k['n_funcs'] else []
+        self.order = list(self.funcs)
         main_location = None
         if k['include']:
             base_kind = r.random()
